@@ -64,9 +64,10 @@ TEMPLATES = {
     "leading0":   [0, 121, -251, 62, -133, 203, -87],                  # first sample 0
     "nonrev":     [101, 152, 251, 43, -61, -183, -92, 33, 177, -203],  # monotone stretches (non-reversal samples)
     "repeated":   [123, 123, -251, -251, 81, 81, -43, 203, 203, -160],  # plateaus
+    "closed":     [251, -120, 183, -61, 251],                          # ends on the value it starts with (a closed load cycle)
 }
 Q_TEMPLATES = ("guideline", "nested", "repeated")
-T_TEMPLATES = tuple(TEMPLATES)
+T_TEMPLATES = tuple(t for t in TEMPLATES if t != "closed")       # 'closed' is used by the refinement part only
 
 _BASE = dict(MatGroupFKM="Steel", FinishingFKM="none", R_m=500, R_z=250, P_A=7.2e-5, P_L=2.5, c=1.4, A_sigma=339.4,
              A_ref=500, G=2 / 15, s_L=10, K_p=3.5, x_Einsatz=3000, r=15, n_bins=200,
@@ -92,7 +93,7 @@ PARAMS = {
 # load ratios of co-assessed points: far below the endurance limit (infinite life), just above the P_RAJ endurance
 # limit of the template (smallest multiple of 0.01 with finite P_RAJ life under 'steel-normal': the hysteresis
 # classes then lie next to the class of the endurance limit), the template itself, and well above
-NEAR_ENDURANCE = {"guideline": 0.53, "constamp": 0.61, "nested": 0.47, "leading0": 0.53, "nonrev": 0.51, "repeated": 0.53}
+NEAR_ENDURANCE = {"guideline": 0.53, "constamp": 0.61, "nested": 0.47, "leading0": 0.53, "nonrev": 0.51, "repeated": 0.53, "closed": 0.53}
 ROLES_Q = ("low", "near", "high")
 ROLES_T = ("low", "near", "mid", "high")
 # per-point stress gradients [1/mm].  For G below about 4/mm the fracture mechanics support factor n_bm is clamped
@@ -139,10 +140,10 @@ def zigzags(n):
 def _plan(tier):
     """which (parameter set, templates) are explored by which part"""
     if tier == "quick":
-        return {"batch": [("steel-normal", Q_TEMPLATES)], "refine": [("steel-normal", Q_TEMPLATES)],
+        return {"batch": [("steel-normal", Q_TEMPLATES)], "refine": [("steel-normal", Q_TEMPLATES + ("closed",))],
                 "mono-star": [("steel-normal", Q_TEMPLATES)], "mono-grid": [], "mono-ladder": []}
     return {"batch": [("steel-normal", T_TEMPLATES), ("steel-nostat", Q_TEMPLATES), ("alu-lognormal", O_TEMPLATES)],
-            "refine": [("steel-normal", T_TEMPLATES), ("steel-nostat", T_TEMPLATES)],
+            "refine": [("steel-normal", T_TEMPLATES + ("closed",)), ("steel-nostat", T_TEMPLATES)],
             "mono-grid": [("steel-normal", Q_TEMPLATES)],
             "mono-star": [("steel-normal", O_TEMPLATES), ("alu-lognormal", Q_TEMPLATES), ("cast-blanket", O_TEMPLATES)],
             "mono-ladder": [("steel-normal", T_TEMPLATES), ("alu-lognormal", Q_TEMPLATES), ("cast-blanket", O_TEMPLATES)]}
